@@ -136,6 +136,8 @@ def gen_spec(rng):
     typ = rng.choice(["", "", "s"])
     if fill and align and width and rng.random() < 0.2:
         width = "0" + width         # with an explicit fill the zero flag changes nothing for str
+    elif not fill and width and rng.random() < 0.1:
+        width = "0" + width         # without one it means "fill with zeros" (str: 'ab000', '000ab', '0ab00')
     return fill + align + width + typ
 
 
@@ -183,6 +185,10 @@ def generate(rng, tier):
                 op["sub"] = True if rng.random() < 0.7 else 2
             if rng.random() < 0.15:
                 op = {"op": "chunk", "dst": dst, "c": rng.randrange(ncolors), "s": gen_str(rng, 8) or "k"}
+            elif rng.random() < 0.04:
+                # a text the application got from another part of the package (a line of a table it printed) and
+                # goes on working with: a CHText like any other
+                op = {"op": "adopt", "dst": dst, "fl": rng.randrange(16)}
         elif r < 0.24:
             op = {"op": "add", "dst": dst, "a": rng.choice(sorted(live)), "b": gen_operand(rng, live, ncolors)}
         elif r < 0.30:
@@ -350,16 +356,21 @@ class World:
                       "multi_chunk_objects": 0, "index_errors": 0, "returned_receiver": 0, "inplace_ops": 0}
 
     # ---- operands
+    def fresh_foreign_texts(self):
+        """new objects every time: lines of a rendered table and of a pretty-printed value"""
+        from ak.ppobj import PPTable, PrettyPrinter
+        color = self.color
+        conf = color.ColorsConfig({"TABLE": {"BORDER": "CYAN"}, "RECORD.NUMBER": "YELLOW:bold", "NAME": "GREEN"})
+        t = PPTable([(1, "a"), (22, "bb"), (333, "a value that gets cut")], fields=["id", "name"],
+                    fmt="id,name:1-6", header="A header much longer than the table itself", footer="")
+        found = list(t.ch_text(colors_conf=conf))
+        found += list(PrettyPrinter()({"k": [1, 2, {"z": None}], "s": "text", "e": []}, colors_conf=conf))
+        return [x for x in found if isinstance(x, color.CHText)]
+
     def foreign_text(self, i):
         if self._foreign is None:
-            from ak.ppobj import PPTable, PrettyPrinter
             color = self.color
-            conf = color.ColorsConfig({"TABLE": {"BORDER": "CYAN"}, "RECORD.NUMBER": "YELLOW:bold", "NAME": "GREEN"})
-            t = PPTable([(1, "a"), (22, "bb"), (333, "a value that gets cut")], fields=["id", "name"],
-                        fmt="id,name:1-6", header="A header much longer than the table itself", footer="")
-            found = list(t.ch_text(colors_conf=conf))
-            found += list(PrettyPrinter()({"k": [1, 2, {"z": None}], "s": "text", "e": []}, colors_conf=conf))
-            self._foreign = [x for x in found if isinstance(x, color.CHText)]
+            self._foreign = self.fresh_foreign_texts()
             self.stats["foreign_texts"] = len(self._foreign)
             # their colours, for the oracle's "same text built in one go": a piece of that colour with another text
             for x in self._foreign:
@@ -560,6 +571,12 @@ def apply(w, op):
         if raised is not None:
             raise Violation("text", f"constructor-raised-{type(raised).__name__}", repr(raised))
         w.store(op["dst"], x, MObj("T", out))
+    elif k == "adopt":
+        fresh = w.fresh_foreign_texts()
+        x = fresh[op["fl"] % len(fresh)]
+        w.foreign_text(0)       # (registers the colours for the oracle)
+        st["adopted_texts"] = st.get("adopted_texts", 0) + 1
+        w.store(op["dst"], x, MObj("T", sgr.parse_cells(str(x)), "adopt"))
     elif k == "chunk":
         x = w.fmts[op["c"] % len(w.fmts)](op["s"])
         stl = w.styles[op["c"] % len(w.styles)]
